@@ -16,7 +16,7 @@ if ! git -C "$wt" apply "$patch"; then echo "PATCH-DOES-NOT-APPLY $patch"; exit 
 if ! (cd "$wt" && go build ./... ) >/dev/null 2>&1; then echo "PATCH-DOES-NOT-BUILD $patch"; exit 2; fi
 
 for id in "$@"; do
-  out=$(VERIF_REPO="$wt" VERIF_DIR="$ev" /verif/bin/verifcheck "$id" quick 2>&1)
+  out=$(VERIF_REPO="$wt" VERIF_DIR="$ev" ${VERIF_BIN:-/verif/bin/verifcheck} "$id" quick 2>&1)
   rc=$?
   if [ $rc -eq 1 ] && grep -q "^VIOLATION property=$id" <<<"$out"; then
     echo "CAUGHT $id $(basename $(dirname $patch)): $(grep -m3 '^  FAIL' <<<"$out" | cut -c1-300 | tr '\n' '|')"
